@@ -82,6 +82,51 @@ theorem C15_all_referenced_stored (c : Cfg) (input : List In) (parts : List Part
 set_option maxRecDepth 10000 in
 example : (match writeFile exCfg exInput with | .ok (_, o) => o.length | .error _ => 0) = 13 := by decide
 
+/-- Over a blob server that may refuse blobs (`fails i` = the i-th upload fails, for EVERY such
+assignment): if the write reports success, then no upload failed – every object of the list was
+stored –, the list ends with the file blob and is closed under references (so everything the returned
+file blob references, transitively, is stored), and the file reads back as the input. -/
+theorem C15_success_all_stored (fails : Nat → Bool) (c : Cfg) (input : List In) (parts : List Part)
+    (objs : List Obj) (h : writeFileF fails c input = .ok (parts, objs)) :
+    (∀ i, i < objs.length → fails i = false) ∧
+    (∃ pre, objs = pre ++ [.file parts]) ∧
+    (∀ pre o post, objs = pre ++ o :: post → ∀ r ∈ o.refs, r ∈ pre) ∧
+    denoteL parts = input.map In.byte ∧ wfL parts = true := by
+  obtain ⟨hw, hf⟩ := writeFileF_ok fails c input parts objs h
+  obtain ⟨h1, h2⟩ := C15_all_referenced_stored c input parts objs hw
+  obtain ⟨p', o', h3, h4, h5, _⟩ := C15_write_parts_denote c input
+  rw [hw] at h3
+  injection h3 with h3
+  injection h3 with hp _
+  subst hp
+  exact ⟨hf, h1, h2, h4, h5⟩
+
+/-- the other direction: a refused blob – chunk, bytes schema blob or the file blob, whichever and
+however many – always makes the write report an error. -/
+theorem C15_failed_upload_reported (fails : Nat → Bool) (c : Cfg) (input : List In) (parts : List Part)
+    (objs : List Obj) (hw : writeFile c input = .ok (parts, objs)) (i : Nat) (hi : i < objs.length)
+    (hfail : fails i = true) : ∃ e, writeFileF fails c input = .error e := by
+  cases hr : writeFileF fails c input with
+  | error e => exact ⟨e, rfl⟩
+  | ok po =>
+    rcases po with ⟨p', o'⟩
+    obtain ⟨hw', hf⟩ := writeFileF_ok fails c input p' o' hr
+    rw [hw] at hw'
+    injection hw' with hw'
+    injection hw' with _ ho
+    subst ho
+    rw [hf i hi] at hfail
+    cases hfail
+
+-- non-vacuity: refusing the last chunk (upload 8 of 13) of the example write is reported …
+set_option maxRecDepth 10000 in
+example : (match writeFileF (fun i => i == 8) exCfg exInput with | .error .upload => true | _ => false) = true := by
+  decide
+-- … and with nothing refused the fallible writer succeeds
+set_option maxRecDepth 10000 in
+example : (match writeFileF (fun _ => false) exCfg exInput with | .ok (_, o) => o.length | _ => 0) = 13 := by
+  decide
+
 /-! ## reader -/
 
 /-- `ReadAt` over ANY well-formed part tree (any depth; offsets, sub-ranges, holes, nested bytes)
